@@ -17,7 +17,10 @@ def sh(cmd, cwd=None, timeout=3000):
     r = subprocess.run(cmd, shell=True, cwd=cwd, capture_output=True, text=True, timeout=timeout)
     return r.returncode, r.stdout + r.stderr
 def suite_once(feat=False):
-    rc, out = sh("cargo nextest run --workspace --no-fail-fast --offline --test-threads 8" + (" --features security" if feat else ""), cwd=wt)
+    # each suite run gets a private network namespace: suites running at the same time on the machine (or
+    # test processes they left behind) would otherwise talk to each other on domain 0
+    ns = "/root/seedwork/netns.sh " if os.path.exists("/root/seedwork/netns.sh") and not os.environ.get("NO_NETNS") else ""
+    rc, out = sh(ns + "cargo nextest run --workspace --no-fail-fast --offline --test-threads 8" + (" --features security" if feat else ""), cwd=wt)
     m = re.search(r"(\d+) tests run: (\d+) passed(?: \(\d+ \w+\))?(?:, (\d+) failed)?", out)
     failed = re.findall(r"^\s+FAIL \[.*?\] \(\s*\d+/\d+\) (\S+ \S+)", out, re.M)
     if not m: return {"error": out[-1500:]}
